@@ -319,9 +319,11 @@ static int do_edit(hwloc_topology_t t, char *line)
     free(t->infos.array[k].name); free(t->infos.array[k].value);
     memmove(&t->infos.array[k], &t->infos.array[k + 1], (t->infos.count - k - 1) * sizeof(*t->infos.array)); t->infos.count--; return 0;
   }
-  if (!strcmp(op, "restrict") && sscanf(line, "%llx %llu", &v, (unsigned long long *)&k) >= 1) {
-    hwloc_bitmap_t b = hwloc_bitmap_alloc(); int r; hwloc_bitmap_from_ulong(b, (unsigned long)v);
-    r = hwloc_topology_restrict(t, b, 0); hwloc_bitmap_free(b); return r;
+  if (!strcmp(op, "restrict")) {     /* restrict <hex cpuset> [<flags>] */
+    unsigned long long fl = 0; hwloc_bitmap_t b; int r;
+    if (sscanf(line, "%llx %llu", &v, &fl) < 1) return -1;
+    b = hwloc_bitmap_alloc(); hwloc_bitmap_from_ulong(b, (unsigned long)v);
+    r = hwloc_topology_restrict(t, b, (unsigned long)fl); hwloc_bitmap_free(b); return r;
   }
   if (!strcmp(op, "allowclr") && sscanf(line, "%u", &k) == 1) { hwloc_bitmap_clr(t->allowed_cpuset, k); return 0; }
   if (!strcmp(op, "allownodeclr") && sscanf(line, "%u", &k) == 1) { hwloc_bitmap_clr(t->allowed_nodeset, k); return 0; }
